@@ -28,6 +28,8 @@ def plan(tier, seed):
     js, n = L.jobs([callsite_bitpacked, callsite_hybrid, L.delta, decoders_only], tier, prefix="C03")
     js.append(dict(name="C03-lemma-delta-callsites", kind="pyfunc", timeout=300,
                    payload=dict(func="vf.pyshim.lemmas:delta_callsites")))
+    js.append(dict(name="C03-lemma-v2-inplace", kind="pyfunc", timeout=300,
+                   payload=dict(func="vf.pyshim.lemma_v2:v2_inplace")))
     try:
         from . import pageloop
         js += pageloop.jobs("C03", tier, seed)
